@@ -644,3 +644,37 @@ impl std::fmt::Debug for SourceSpan {
         )
     }
 }
+
+/// Verification hooks (only with `--cfg apollo_rs_verif`): observe and preset the file-id counter
+/// and run the tag packing of `TaggedFileId` on arbitrary ids.
+#[cfg(apollo_rs_verif)]
+impl FileId {
+    pub fn verif_raw(self) -> u64 {
+        self.id.get()
+    }
+
+    pub fn verif_from_raw(raw: u64) -> Option<Self> {
+        if raw & TAG != 0 {
+            return None;
+        }
+        NonZeroU64::new(raw).map(|id| Self { id })
+    }
+
+    pub fn verif_set_next(value: u64) {
+        NEXT.store(value, atomic::Ordering::Release)
+    }
+
+    pub fn verif_peek_next() -> u64 {
+        NEXT.load(atomic::Ordering::Acquire)
+    }
+
+    /// `(packed raw value, tag read back, id read back)`
+    pub fn verif_pack_unpack(self, tag: bool) -> (u64, bool, u64) {
+        let packed = TaggedFileId::pack(tag, self);
+        (
+            packed.tag_and_id.get(),
+            packed.tag(),
+            packed.file_id().id.get(),
+        )
+    }
+}
